@@ -101,7 +101,92 @@ func indexSafe(x, idx ssa.Value, at ssa.Instruction) (bool, string) {
 			}
 		}
 	}
+	if inRangeViaHelper(x, idx, at) {
+		return true, "index returned by a helper that yields -1 (excluded here) or an index below len of the same slice"
+	}
 	return false, "index " + desc(idx) + " into " + desc(x) + " is not provably in range"
+}
+
+// inRangeViaHelper: idx is the result of a private helper ("index of …") each of whose returns yields either a negative
+// constant that the facts at `at` exclude, or a value that is, at that return, a non-negative index below len of the same
+// slice expression. (The slice is assumed unchanged between the helper's return and the use: both sit in one critical
+// section of the lock that guards the slice, which the lockset rules check.)
+func inRangeViaHelper(x, idx ssa.Value, at ssa.Instruction) bool {
+	var call *ssa.Call
+	switch v := idx.(type) {
+	case *ssa.Call:
+		call = v
+	case *ssa.Extract:
+		call, _ = v.Tuple.(*ssa.Call)
+	}
+	if call == nil || crossWorld == nil {
+		return false
+	}
+	h := staticCallee(call)
+	if h == nil || !crossWorld.isPrivateHelper(h) {
+		return false
+	}
+	excluded := func(k int64) bool {
+		for _, f := range factsAt(at) {
+			p, op, q, ok := cmpFact(f)
+			if !ok || stripConv(p) != idx {
+				continue
+			}
+			c, isK := constInt(q)
+			if !isK {
+				continue
+			}
+			switch op {
+			case token.NEQ:
+				if c == k {
+					return true
+				}
+			case token.GEQ:
+				if c > k {
+					return true
+				}
+			case token.GTR:
+				if c >= k {
+					return true
+				}
+			}
+		}
+		return false
+	}
+	okAll, n := true, 0
+	ri := 0
+	if ex, isEx := idx.(*ssa.Extract); isEx {
+		ri = ex.Index
+	}
+	forEachReturnValue(h, ri, func(l ssa.Value, ret ssa.Instruction) {
+		for _, leaf := range phiLeaves(l) {
+			n++
+			if k, isK := constInt(leaf); isK && k < 0 {
+				if !excluded(k) {
+					okAll = false
+				}
+				continue
+			}
+			good := false
+			facts := factsAt(ret)
+			// facts on the edges into a phi are not at the return; use the facts at the leaf's own definition too
+			if in, isIn := l.(ssa.Instruction); isIn {
+				facts = append(facts, factsAt(in)...)
+			}
+			for _, f := range facts {
+				p, op, q, ok := cmpFact(f)
+				if ok && p == l && op == token.LSS {
+					if lc, isC := q.(*ssa.Call); isC && calleeName(lc) == "builtin.len" && desc(lc.Call.Args[0]) == desc(x) && nonNegative(l, 0) {
+						good = true
+					}
+				}
+			}
+			if !good {
+				okAll = false
+			}
+		}
+	})
+	return okAll && n > 0
 }
 
 func nonNegative(v ssa.Value, d int) bool {
@@ -390,8 +475,11 @@ func sliceSafe(x *ssa.Slice) (bool, string) {
 		if lt(v) && nonNegative(v, 0) {
 			return true, ""
 		}
+		if inRangeViaHelper(x.X, v, x) {
+			return true, ""
+		}
 		if b, ok := v.(*ssa.BinOp); ok && b.Op == token.ADD {
-			if k, isK := constInt(b.Y); isK && k == 1 && lt(b.X) && nonNegative(b.X, 0) {
+			if k, isK := constInt(b.Y); isK && k == 1 && ((lt(b.X) && nonNegative(b.X, 0)) || inRangeViaHelper(x.X, b.X, x)) {
 				return true, ""
 			}
 		}
@@ -466,7 +554,28 @@ func ruleExhaustiveSwitches(c *Ctx, rule string) {
 			return true
 		})
 	}
-	c.floor(rule, n, 6, "frame type switches (2 accept, 2 reassembly, 2 measure)")
+	c.floor(rule, n, 3, "frame type switches (accept, reassembly, measure; some may be written as if/else chains)")
+	// the accept functions handle the nil frame whichever way the classification is written (type switch with case nil,
+	// or an explicit frame == nil test)
+	a := w.Anchors()
+	for _, acc := range []*ssa.Function{a.ClientAccept, a.ServerAccept} {
+		if acc == nil || len(acc.Params) < 2 {
+			continue
+		}
+		frameP := acc.Params[1]
+		nilTest := false
+		allInstrs(acc, func(in ssa.Instruction) {
+			switch x := in.(type) {
+			case *ssa.BinOp:
+				if (x.Op == token.EQL || x.Op == token.NEQ) && isNilConst(x.Y) && origin(x.X) == ssa.Value(frameP) {
+					nilTest = true
+				}
+			case *ssa.TypeAssert:
+				// `case nil` of a type switch is compiled to a comparison with nil as well; nothing else to do
+			}
+		})
+		c.check(nilTest, rule, w.Short(acc)+": nil frame tested", w.Pos(acc.Pos()), "frame == nil is tested", "the accept function never tests for a nil frame (a message whose oneof is unset or unknown): it would be handed to the receiver as data and panic the reader")
+	}
 }
 
 func enclosingFunc(f *ast.File, pos token.Pos) string {
